@@ -64,16 +64,38 @@ pub const POLL_BUDGET: u64 = 50_000_000;
 
 /// Poll a future to completion on this thread, catching panics. Pending is simply re-polled
 /// (SimDisk's yield wakes itself); a budget bounds runaway loops that do yield.
+thread_local! {
+    static TOKIO: RefCell<Option<tokio::runtime::Runtime>> = const { RefCell::new(None) };
+}
+
+/// C14 disk arm: random-access-disk needs a tokio context for its blocking file operations
+pub fn enable_tokio() {
+    TOKIO.with(|t| {
+        if t.borrow().is_none() {
+            let rt = tokio::runtime::Builder::new_current_thread()
+                .max_blocking_threads(2)
+                .build()
+                .expect("tokio runtime");
+            *t.borrow_mut() = Some(rt);
+        }
+    });
+}
+
 pub fn run<T>(fut: impl Future<Output = T>) -> Guarded<T> {
     let mut fut = Box::pin(fut);
     let waker = noop_waker();
     let mut cx = Context::from_waker(&waker);
     let r = catch_unwind(AssertUnwindSafe(|| {
+        let tk = TOKIO.with(|t| t.borrow().as_ref().map(|rt| rt.handle().clone()));
+        let _guard = tk.as_ref().map(|h| h.enter());
         let mut polls = 0u64;
         loop {
             match fut.as_mut().poll(&mut cx) {
                 Poll::Ready(v) => return Ok(v),
                 Poll::Pending => {
+                    if tk.is_some() {
+                        std::thread::yield_now();
+                    }
                     polls += 1;
                     if polls > POLL_BUDGET {
                         return Err(format!("still pending after {polls} polls"));
